@@ -63,6 +63,7 @@ class FakeWriter:
         self.closed = False
         self.fail_write = False   # next write raises ConnectionResetError
         self.fail_drain = False
+        self.lost_exc = None      # what the transport reported in connection_lost(exc)
 
     def get_extra_info(self, name, default=None):
         if name == "peername":
@@ -71,12 +72,14 @@ class FakeWriter:
 
     def write(self, data):
         if self.fail_write:
-            raise ConnectionResetError("simulated write error")
+            self.lost_exc = ConnectionResetError("simulated write error")
+            raise self.lost_exc
         self.chunks.append(bytes(data))
 
     async def drain(self):
         if self.fail_drain:
-            raise ConnectionResetError("simulated drain error")
+            self.lost_exc = ConnectionResetError("simulated drain error")
+            raise self.lost_exc
 
     def close(self):
         self.closed = True
@@ -85,7 +88,9 @@ class FakeWriter:
         return self.closed
 
     async def wait_closed(self):
-        pass
+        # Python 3.12: StreamWriter.wait_closed() re-raises the exception the connection was lost with
+        if self.lost_exc is not None:
+            raise self.lost_exc
 
 
 class Conn:
@@ -232,7 +237,9 @@ class Sim:
             self.settle()
 
     def read_error(self, cid, settle=True, exc=None):
-        self.conns[cid].reader.set_exception(exc or ConnectionResetError("simulated reset"))
+        exc = exc or ConnectionResetError("simulated reset")
+        self.conns[cid].writer.lost_exc = exc   # connection_lost(exc) reaches the reader and the close waiter alike
+        self.conns[cid].reader.set_exception(exc)
         if settle:
             self.settle()
 
